@@ -10,7 +10,7 @@ import json
 from . import cases as casemod
 from . import replay, tlc
 
-MODULE_CONSTS = {"Trace_Obs": {"MCMode": "off", "OptNames": "{}", "MBLayouts": "{}", "MBRecs": "{}", "IOReqs": "{}", "IOShape": "{}", "NNames": "{}", "NDescs": "{}", "NCfgs": "{}", "RNodes": "{}", "RMode": "off", "XModules": "{}", "XMode": "off", "FRank": 3, "FDepth": 2, "FMutant": "none"}}
+MODULE_CONSTS = {"Trace_Obs": {"MCMode": "off", "OptNames": "{}", "MBLayouts": "{}", "MBRecs": "{}", "IOReqs": "{}", "IOShape": "{}", "NNames": "{}", "NDescs": "{}", "NCfgs": "{}", "RNodes": "{}", "RMode": "off", "XModules": "{}", "XMode": "off", "FRank": 3, "FDepth": 2, "FMutant": "none", "BNMax": 40, "BMutant": "none"}}
 ALL = replay.ALL_ACTS
 NO_INDEX = [a for a in ALL if a != "Index"]
 
